@@ -18,14 +18,14 @@ var defectKinds = []string{
 	"similar-paths", "path-bad-user-types", "undefined-types-many-types", "undefined-macros", "bad-enum-bodies",
 	"request-without-body", "response-without-body", "headers-not-object",
 	"empty-path-parameter", "repeated-path-parameter", "path-parameters-redefined",
-	"duplicate-types-other-notation",
+	"duplicate-types-other-notation", "notation-mix",
 }
 
 // defectGroups: kinds that are detected in the same phase of the builder.
 var defectGroups = [][]string{
 	{"request-without-body", "response-without-body", "headers-not-object"},                      // validateCatalog (last phase)
 	{"self-pasting-macros", "undefined-macros", "duplicate-macros"},                               // macro collection / paste
-	{"duplicate-types", "duplicate-types-other-notation", "undefined-types-many-types", "rule-violating-types", "mutual-bad-types", "allof-missing", "undefined-enums"}, // user types
+	{"duplicate-types", "duplicate-types-other-notation", "undefined-types-many-types", "rule-violating-types", "mutual-bad-types", "allof-missing", "undefined-enums", "notation-mix"}, // user types
 	{"duplicate-paths", "similar-paths", "path-extra-props", "path-bad-user-types", "path-parameters-redefined"}, // paths
 	{"empty-path-parameter", "repeated-path-parameter"},                                            // path parameters of Path-less directives
 	{"undefined-tags", "duplicate-tags", "duplicate-servers", "duplicate-operation-ids", "duplicate-enums", "bad-enum-bodies"},
@@ -96,6 +96,42 @@ func defectBlock(kind string, n int, r *Rand) string {
 		for i := 0; i < k; i++ {
 			fmt.Fprintf(&sb, "GET /zs%d_%d/{a}\n  200 any\nGET /zs%d_%d/{b}\n  200 any\n", n, i, n, i)
 		}
+	case "notation-mix":
+		// a user type of every notation and shape (regex, any, scalar, array, null, empty object, a
+		// reference chain that ends in one of those, an ENUM name) referenced from every place that
+		// takes a type: most places assume an object written in the jsight notation
+		decl := []string{" regex\n  /ab+/", " any", "\n  1", "\n  \"s\"", "\n  [1, 2]", "\n  null", "\n  {}", "\n  @nmB%d", " empty", "\n  true // {nullable: true}", "\n  {\"id\": 1} // {additionalProperties: true}"}
+		d := decl[r.Intn(len(decl))]
+		if strings.Contains(d, "%d") {
+			d = fmt.Sprintf(d, n)
+		}
+		fmt.Fprintf(&sb, "TYPE @nmA%d%s\n", n, d)
+		fmt.Fprintf(&sb, "TYPE @nmB%d%s\n", n, decl[r.Intn(7)])
+		fmt.Fprintf(&sb, "ENUM @nmE%d\n  [\"a\", \"b\"]\n", n)
+		t := fmt.Sprintf("@nmA%d", n)
+		if r.Chance(1, 8) {
+			t = fmt.Sprintf("@nmE%d", n) // an ENUM name where a TYPE name is expected
+		}
+		uses := []string{
+			"GET /znm%[1]d/{id}\n  Path\n    %[2]s\n  200 any\n",
+			"GET /znm%[1]d/{id}\n  Path\n    {\"id\": %[2]s}\n  200 any\n",
+			"GET /znm%[1]d/{id}\n  Path\n    { // {allOf: \"%[2]s\"}\n      \"id\": 1\n    }\n  200 any\n",
+			"URL /znm%[1]d/{id}\n  Path\n    %[2]s\n  GET\n    200 any\n  POST\n    Path\n      %[2]s\n    200 any\n",
+			"GET /znm%[1]d\n  Query \"a=1\"\n    %[2]s\n  200 any\n",
+			"GET /znm%[1]d\n  Query \"a=1\"\n    { // {allOf: \"%[2]s\"}\n      \"a\": 1\n    }\n  200 any\n",
+			"POST /znm%[1]d\n  Request\n    Headers\n      %[2]s\n    Body %[2]s\n  200\n    Headers\n      %[2]s\n    Body any\n",
+			"POST /znm%[1]d\n  Request %[2]s\n  200 %[2]s\n  201\n    [%[2]s]\n",
+			"TYPE @nmU%[1]d\n  %[2]s\nTYPE @nmV%[1]d\n  {\"a\": %[2]s | @nmB%[1]d, \"b\": [%[2]s]}\nGET /znm%[1]d\n  200 @nmU%[1]d\n  201 @nmV%[1]d\n",
+			"TYPE @nmU%[1]d\n  { // {allOf: [\"%[2]s\", \"@nmB%[1]d\"]}\n    \"z\": 1\n  }\nGET /znm%[1]d\n  200 @nmU%[1]d\n",
+			"URL /znm%[1]d\n  Protocol json-rpc-2.0\n  Method nm%[1]d\n    Params\n      %[2]s\n    Result\n      %[2]s\n",
+			"GET /znm%[1]d\n  200\n    {\"a\": 1 // {or: [\"%[2]s\", \"@nmB%[1]d\"]}\n    }\n",
+			"GET /znm%[1]d\n  200\n    {\"a\": \"a\" // {enum: %[2]s}\n    }\n",
+			"GET /znm%[1]d\n  200\n    {\"a\": 1 // {type: \"%[2]s\"}\n    }\n",
+			"GET /znm%[1]d\n  200\n    {%[2]s: 1}\n",
+		}
+		for i := 0; i < r.Range(1, 2); i++ {
+			fmt.Fprintf(&sb, strings.Replace(uses[r.Intn(len(uses))], "znm%[1]d", fmt.Sprintf("znm%%[1]d_%d", i), -1), n, t)
+		}
 	case "path-bad-user-types":
 		fmt.Fprintf(&sb, "TYPE @pb%da\n  1 // {min: 5}\nTYPE @pb%db\n  1 // {min: 7}\nGET /zpb%d/{id}/{k}\n  Path\n    {\"id\": @pb%da, \"k\": @pb%db}\n  200 any\n", n, n, n, n, n)
 	case "undefined-types-many-types":
@@ -129,11 +165,19 @@ func defectBlock(kind string, n int, r *Rand) string {
 
 // genMultiDefect: a valid project plus 2-4 independent defect blocks (kinds may repeat with
 // different names), appended to the root file or to one of its included files.
-func genMultiDefect(r *Rand) *Project {
+func genMultiDefect(r *Rand) *Project { return genDefects(r, r.Range(2, 4)) }
+
+// genSingleDefect: one defect block only - nothing found in an earlier phase of the builder masks
+// it. A quarter of them are the notation mix (11 declarations x 15 places of use).
+func genSingleDefect(r *Rand) *Project { return genDefects(r, 1) }
+
+func genDefects(r *Rand, n int) *Project {
 	p := genValid(r.Fork())
 	p.Kind = "multi-defect"
+	if n == 1 {
+		p.Kind = "single-defect"
+	}
 	p.Valid = false
-	n := r.Range(2, 4)
 	var kinds []string
 	// Defects only compete for "which error is reported" when they are found in the same phase
 	// of the builder. 1/3: several defects of ONE kind; 1/3: several kinds of ONE phase group;
@@ -150,6 +194,9 @@ func genMultiDefect(r *Rand) *Project {
 		default:
 			kinds = append(kinds, defectKinds[r.Intn(len(defectKinds))])
 		}
+	}
+	if n == 1 && r.Chance(1, 4) {
+		kinds[0] = "notation-mix"
 	}
 	for i, k := range kinds {
 		block := defectBlock(k, i, r)
@@ -173,5 +220,36 @@ func genMultiDefect(r *Rand) *Project {
 		f.Data = []byte(s + block)
 		p.Features = append(p.Features, "defect:"+k)
 	}
+	if r.Chance(1, 6) {
+		addWrongBaseInclude(p, r)
+	}
 	return p
+}
+
+// addWrongBaseInclude: the classic mistake - a file in a subdirectory names its INCLUDE relative
+// to the project root (or to a directory above it) instead of to itself. The target exists, only
+// not where the parameter points: the build must fail with "does not exist" whatever the
+// working directory of the process is (C06 varies it, with the root named by its absolute path).
+func addWrongBaseInclude(p *Project, r *Rand) {
+	root := p.File(p.Root)
+	if root == nil {
+		return
+	}
+	param := []string{"wbouter.jst", "p/wbouter.jst", projDir + "/wbouter.jst", "./wbouter.jst"}[r.Intn(4)]
+	if r.Chance(1, 3) {
+		param = "\"" + param + "\""
+	}
+	nl := "\n"
+	if root.CRLF {
+		nl = "\r\n"
+	}
+	s := string(root.Data)
+	if !strings.HasSuffix(s, nl) {
+		s += nl
+	}
+	root.Data = []byte(s + "INCLUDE wb/inner.jst" + nl)
+	p.Files = append(p.Files,
+		GenFile{Path: "wb/inner.jst", Data: []byte("TAG @wbInner\nINCLUDE " + param + "\n")},
+		GenFile{Path: "wbouter.jst", Data: []byte("TAG @wbOuter\n")})
+	p.Features = append(p.Features, "defect:include-wrong-base")
 }
